@@ -26,7 +26,7 @@ Min(a, b) == IF a <= b THEN a ELSE b
 
 IsPrimeDef(n) == n > 1 /\ \A d \in 2..(n - 1) : n % d # 0
 \* trial division up to the square root; every number the spec computes with is below 46341 (products stay below 2^31)
-IsPrime(n) == n > 1 /\ n < 46341 /\ \A d \in 2..Min(n - 1, 215) : d * d > n \/ n % d # 0
+IsPrime(n) == n > 1 /\ n < 46341 /\ \A d \in 2..Min(n - 1, 215) : (d * d <= n) => (n % d # 0)
 
 \* number of binary digits (0 has none)
 Bits(n) == CHOOSE b \in 0..30 : n < 2^b /\ (b = 0 \/ n >= 2^(b - 1))
@@ -164,8 +164,9 @@ GensOf(v, t) ==
     [] v.fam = "pqgh" -> <<t[3], t[4]>> [] v.fam = "pqg" -> <<t[3]>>
 KOf(v, t) == IF v.fam \in {"dlog", "com"} THEN t[3] ELSE IF v.fam = "qr" THEN 2
              ELSE IF t[2] > 0 /\ (t[1] - 1) % t[2] = 0 THEN (t[1] - 1) \div t[2] ELSE -1
-OrderDef(x, p) == IF \E e \in 1..(p - 1) : PowDef(x, e, p) = 1
-                  THEN CHOOSE e \in 1..(p - 1) : PowDef(x, e, p) = 1 /\ \A f \in 1..(e - 1) : PowDef(x, f, p) # 1
+\* multiplicative order by search (0: none)
+OrderDef(x, p) == IF \E e \in 1..(p - 1) : PowM(x, e, p) = 1
+                  THEN CHOOSE e \in 1..(p - 1) : PowM(x, e, p) = 1 /\ \A f \in 1..(e - 1) : PowM(x, f, p) # 1
                   ELSE 0
 Defect(v, t) ==
   LET p == t[1]  q == t[2]  k == KOf(v, t)  gens == GensOf(v, t) IN
